@@ -61,10 +61,23 @@ def run_persist_property(prop, module, trusted, tier, seed, replay, gen_cases, k
                     key = ".".join(lab.split(".")[:3]) if not lab.startswith("manifest") else lab
                     fhist.setdefault(key, {}).setdefault(cls, 0)
                     fhist[key][cls] += 1
+    bkstats = {}
+    for c in stats.get("results", []):
+        for a, l in zip(c["ann"], c["impl"]):
+            op = a.split(" ")[0]
+            if op.startswith("bk_"):
+                key = op + ":" + ("ok" if l.startswith(("ok", "deleted=-")) else "deleted" if l.startswith("deleted=") else l.split(" ")[0])
+                if op == "bk_incr" and l.startswith("ok") and "members=s" in l:
+                    key += "+snapshot"
+                if op == "bk_damage":
+                    key = op + ":" + (l.split("field=")[1] if "field=" in l else "?")
+                bkstats[key] = bkstats.get(key, 0) + 1
+    restores = sum(v for k, v in bkstats.items() if k.startswith(("bk_restore", "bk_pitr", "bk_prune")))
     rep.coverage.update({
         "traces_validated_against_impl": stats["validated"],
         "disagreements_checked": stats["cases"],
-        "evaluations": faults if faults else (stats["cases"] if not crashes else crashes),
+        "evaluations": faults if faults else restores if restores else (stats["cases"] if not crashes else crashes),
+        "backup_ops_by_outcome": bkstats,
         "single_faults_recovered_by_real_code": faults,
         "fault_outcomes_by_class": fhist,
         "distinct_nontrivial": len(stats["distinct"]),
